@@ -133,4 +133,4 @@ def execute(case):
     return res
 
 
-CHECKS = [Check("greedy_invocation", execute, strategy=case_strategy, budget={"quick": 4000, "thorough": 150000})]
+CHECKS = [Check("greedy_invocation", case_timeout=60, timeout_is_violation=True, execute=execute, strategy=case_strategy, budget={"quick": 4000, "thorough": 150000})]
